@@ -96,7 +96,8 @@ def gen_session(rng):
         probe = {"kind": "arr", "dim": "k", "shape": [11]}
     if probe is not None and rng.random() < .7:
         steps.append(probe)
-    return {"nocontext": False, "steps": steps}, (lt, mode, nleaves, probe is not None and steps[-1] is probe)
+    # in a third of the sessions, equal arrays inside one tree are the SAME object (tied weights): positions stay positions
+    return {"nocontext": False, "steps": steps, "share_arrays": rng.random() < .33}, (lt, mode, nleaves, probe is not None and steps[-1] is probe)
 
 
 def S(*steps, nocontext=False):
@@ -111,6 +112,13 @@ CORPUS = [
     # same position must agree, different positions are independent
     (S(ts(A("?n"), ["t", [arr([3]), arr([4])]]), ts(A("?n"), ["t", [arr([3]), arr([4])]])), ["acc", "acc"]),
     (S(ts(A("?n"), ["t", [arr([3]), arr([4])]]), ts(A("?n"), ["t", [arr([4]), arr([3])]])), ["acc", "rej"]),
+    # the same array object at two positions of the first tree: both positions are bound, the second tree must agree at both
+    (dict(S(ts(A("?n"), ["t", [arr([3]), arr([3])]]), ts(A("?n"), ["t", [arr([3]), arr([4])]])), share_arrays=True), ["acc", "rej"]),
+    (dict(S(ts(["union", [A("*?v 2"), "int"]], ["l", [arr([5, 2]), ["i", 1], arr([5, 2])]]), ts(["union", [A("*?v 2"), "int"]], ["l", [arr([5, 2]), ["i", 1], arr([6, 2])]])), share_arrays=True), ["acc", "rej"]),
+    # the leaf type is a NESTED array annotation that went through pickle (as it does on its way to a worker process): `?n` is still per position
+    (S(ts(["parr", "Float", "?n"], ["t", [arr([2, 3]), arr([2, 4])]]), ts(["parr", "Float", "?n"], ["t", [arr([2, 3]), arr([2, 5])]])), ["acc", "rej"]),
+    (S({"kind": "arr", "dim": "n", "shape": [6]}, ts(["parr", "Float", "?n"], ["t", [arr([2, 5])]]), {"kind": "arr", "dim": "n", "shape": [6]}), ["acc", "acc", "acc"]),
+    (S({"kind": "arr", "dim": "?n", "shape": [3]}, ts(["parr", "Float", "m ?n"], ["l", [arr([2, 7, 3]), arr([2, 7, 4])]], "U")), ["raise:AnnotationError", "acc"]),
     # never interacts with a plain axis of the same name
     (S({"kind": "arr", "dim": "n", "shape": [9]}, ts(A("?n n"), ["t", [arr([3, 9]), arr([4, 9])]]), {"kind": "arr", "dim": "n", "shape": [9]}), ["acc", "acc", "acc"]),
     (S({"kind": "arr", "dim": "n", "shape": [9]}, ts(A("?n n"), ["t", [arr([3, 8])]])), ["acc", "rej"]),
